@@ -1987,6 +1987,66 @@ func ruleTreeReadOnly(c *Ctx) {
 		}
 	}
 	c.census("AST-RO", "appends into a re-slice outside the parser", n, 0)
+	// ... and no element of a slice held by a syntax-tree node is assigned to outside the parser: the trees are
+	// shared (the include loader's cache, the workspace's resolved tree, the analysis that runs next), so
+	// `tx.Postings[i].Amount = inferred` changes what every later reader of that file sees.
+	nSt := 0
+	for _, f := range c.P.ModuleFuncs() {
+		top := f
+		for top.Parent() != nil {
+			top = top.Parent()
+		}
+		if top.Pkg == nil || strings.HasSuffix(top.Pkg.Pkg.Path(), "/parser") || strings.HasSuffix(top.Pkg.Pkg.Path(), "/ast") || strings.HasSuffix(top.Pkg.Pkg.Path(), "/testutil") {
+			continue
+		}
+		for _, b := range f.Blocks {
+			for _, ins := range b.Instrs {
+				st, ok := ins.(*ssa.Store)
+				if !ok {
+					continue
+				}
+				// walk the address down to an element of a slice
+				addr := st.Addr
+				w := ""
+				for d := 0; d < 8 && w == ""; d++ {
+					switch a := addr.(type) {
+					case *ssa.FieldAddr:
+						addr = a.X
+						continue
+					case *ssa.IndexAddr:
+						if _, isSlice := a.X.Type().Underlying().(*types.Slice); isSlice {
+							w = origin(a.X, f, 0, map[ssa.Value]bool{})
+						}
+						addr = a.X
+						continue
+					case *ssa.Phi:
+						// p := &xs[i] chosen on several paths
+						for _, e := range a.Edges {
+							if ia, ok := e.(*ssa.IndexAddr); ok {
+								if _, isSlice := ia.X.Type().Underlying().(*types.Slice); isSlice {
+									if o := origin(ia.X, f, 0, map[ssa.Value]bool{}); o != "" {
+										w = o
+									}
+								}
+							}
+						}
+					}
+					break
+				}
+				if _, isIdx := st.Addr.(*ssa.IndexAddr); !isIdx {
+					if _, isFld := st.Addr.(*ssa.FieldAddr); !isFld {
+						continue
+					}
+				}
+				nSt++
+				if w != "" {
+					c.finding("AST-RO", funcName(f), "no store into an element of a syntax-tree slice", st.Pos(),
+						"an element of "+w+" (storage owned by the syntax tree) is assigned to outside the parser: the tree is shared with the include cache, the workspace and the checks that run next, so every later reader of that file sees the modified node - answers depend on which requests were served before")
+				}
+			}
+		}
+	}
+	c.note("AST-RO: %d field/element stores outside the parser examined", nSt)
 }
 
 // ruleWorkspaceReadsDisk (C12-DISK): the workspace's incremental update path (everything but Initialize) takes
